@@ -377,6 +377,11 @@ class HomeKitConnection:
             await self._connector
         except asyncio.CancelledError:
             pass
+        except Exception as ex:
+            # The connector already finished with an error (for example an
+            # authentication failure); it has been recorded and must not
+            # prevent the connection from being closed.
+            logger.debug("%s: Connector had already failed: %s", self.name, ex)
 
     async def get(self, target: str) -> HttpResponse:
         """
